@@ -2,6 +2,7 @@ package main
 
 import (
 	"go/ast"
+	"strings"
 )
 
 // regenerated facts of the "frontend" family (C41 C42 C43 C44)
@@ -99,4 +100,23 @@ func factsFrontend() {
 		feBody(fn(f, "", "nextIntervalBoundary")))
 	g := parse("internal/cortex/querier/queryrange/step_align.go")
 	emitList("stepAlignBody", "internal/cortex/querier/queryrange/step_align.go stepAlign.Do", feBody(fn(g, "stepAlign", "Do")))
+
+	// ---- C43
+	ck := parse("pkg/queryfrontend/cache.go")
+	var writes []string
+	for _, l := range feBody(fn(ck, "thanosCacheKeyGenerator", "generateQueryRangeCacheKey")) {
+		if strings.HasPrefix(l, "buf.Write") || strings.HasPrefix(l, "writeCacheKey") {
+			writes = append(writes, l)
+		}
+	}
+	emitList("rangeKeyWrites", "pkg/queryfrontend/cache.go generateQueryRangeCacheKey: what is written to the key buffer, in order", writes)
+	gk := fn(ck, "thanosCacheKeyGenerator", "GenerateCacheKey")
+	emitList("rangeKeyCall", "pkg/queryfrontend/cache.go GenerateCacheKey: case *ThanosQueryRangeRequest", feStmts(feCaseBody(gk, "*ThanosQueryRangeRequest")))
+	emitList("labelsKeyFormat", "pkg/queryfrontend/cache.go GenerateCacheKey: case *ThanosLabelsRequest", feStmts(feCaseBody(gk, "*ThanosLabelsRequest")))
+	emitList("seriesKeyFormat", "pkg/queryfrontend/cache.go GenerateCacheKey: case *ThanosSeriesRequest", feStmts(feCaseBody(gk, "*ThanosSeriesRequest")))
+	emitList("shardInfoKeyBody", "pkg/queryfrontend/cache.go generateShardInfoKey", feBody(fn(ck, "", "generateShardInfoKey")))
+	emitList("cacheKeyResolutions", "pkg/queryfrontend/cache.go newThanosCacheKeyGenerator", feBody(fn(ck, "", "newThanosCacheKeyGenerator")))
+	emitList("shouldCacheBody", "pkg/queryfrontend/roundtrip.go shouldCache", feBody(fn(parse("pkg/queryfrontend/roundtrip.go"), "", "shouldCache")))
+	emitList("unsafeTenantBody", "internal/cortex/tenant/resolver.go containsUnsafePathSegments",
+		feBody(fn(parse("internal/cortex/tenant/resolver.go"), "", "containsUnsafePathSegments")))
 }
